@@ -7,10 +7,10 @@ wt="$d/wt"
 cd "$wt"
 # keep demo files (untracked), reset tracked files
 git checkout -- . ; git apply "$d/out/patch.diff" || { echo "patch does not apply"; exit 3; }
-sh "$d/out/demo/run.sh" "$wt" > "$d/out/confirm_demo_with.log" 2>&1; a=$?
+bash "$d/out/demo/run.sh" "$wt" > "$d/out/confirm_demo_with.log" 2>&1; a=$?
 suite=0
 for c in "$@"; do cargo test -p "$c" --offline > "$d/out/confirm_suite_$c.log" 2>&1 || suite=1; done
 git checkout -- .
-sh "$d/out/demo/run.sh" "$wt" > "$d/out/confirm_demo_without.log" 2>&1; b=$?
+bash "$d/out/demo/run.sh" "$wt" > "$d/out/confirm_demo_without.log" 2>&1; b=$?
 git apply "$d/out/patch.diff"
 echo "RESULT demo_with_patch_exit=$a demo_without_patch_exit=$b suite_with_patch_exit=$suite"
